@@ -556,6 +556,59 @@ func c16Rank(c *Ctx) {
 		}()
 	}
 	wg.Wait()
+	// Rank on subsets with large elements: exact, or the documented overflow panic - never a wrong value
+	var bigSets [][]int
+	for _, a := range []int{65535, 65536, 3037000498, 3037000499, 3037000500, 3037000501, 4294967295, 4294967296, 4294967297, 6074001000, 6074001001, 1 << 40} {
+		for d1 := 1; d1 <= 2; d1++ {
+			bigSets = append(bigSets, []int{a, a + d1}, []int{0, a}, []int{a - 1, a, a + 1}, []int{1, a, a + d1})
+		}
+	}
+	for s := 0; s <= 70; s++ {
+		for k := 1; k <= 45; k += 2 {
+			run := make([]int, k)
+			for i := range run {
+				run[i] = s + i
+			}
+			bigSets = append(bigSets, run)
+			gap := make([]int, k)
+			for i := range gap {
+				gap[i] = s + 2*i
+			}
+			bigSets = append(bigSets, gap)
+		}
+	}
+	for _, set := range bigSets {
+		set := set
+		c.Check(func() *Failure {
+			want := big.NewInt(0)
+			for i, v := range set {
+				want.Add(want, bigBinom(uint64(v), uint64(i+1)))
+			}
+			var got int
+			msg, p := try(func() { got = comb.Rank(set) })
+			rc := rankCase{Fn: "Rank", Comb: set}
+			if p {
+				// a panic is the documented refusal; it is only wrong when every term's product and the sum fit comfortably
+				fits := want.IsInt64()
+				for i, v := range set {
+					t := new(big.Int).Mul(bigBinom(uint64(v), uint64(i+1)), big.NewInt(int64(i+1)))
+					if !t.IsUint64() {
+						fits = false
+					}
+				}
+				if fits {
+					return &Failure{Class: "comb/Rank/refuses-representable", What: fmt.Sprintf("Rank(%v) panics (%s) although the rank %s and every term fit", set, msg, want), Kind: "rank", Replay: rc}
+				}
+				return nil
+			}
+			if !want.IsInt64() || want.Int64() != int64(got) {
+				return &Failure{Class: "comb/Rank/wrong-value", What: fmt.Sprintf("Rank(%v) = %d, exact value %s", set, got, want), Kind: "rank-big", Replay: rc}
+			}
+			return nil
+		})
+		c.Nontrivial(1)
+	}
+	c.SetCount("rank_large_element_sets", int64(len(bigSets)))
 	c.Sample("rank", rankCase{Fn: "Rank", Comb: []int{1, 4, 9}})
 	c.Sample("unrank", rankCase{Fn: "Unrank", R: 123456, K: 4})
 }
@@ -676,6 +729,18 @@ func replayC16(kind string, raw json.RawMessage) *Failure {
 		var seq []callStep
 		json.Unmarshal(raw, &seq)
 		return evalCallSeq(seq)
+	case "rank-big":
+		var rc rankCase
+		json.Unmarshal(raw, &rc)
+		want := big.NewInt(0)
+		for i, v := range rc.Comb {
+			want.Add(want, bigBinom(uint64(v), uint64(i+1)))
+		}
+		var got int
+		if _, p := try(func() { got = comb.Rank(rc.Comb) }); !p && (!want.IsInt64() || want.Int64() != int64(got)) {
+			return &Failure{Class: "comb/Rank/wrong-value", What: fmt.Sprintf("Rank(%v) = %d, exact value %s", rc.Comb, got, want)}
+		}
+		return nil
 	case "rank":
 		var rc rankCase
 		json.Unmarshal(raw, &rc)
